@@ -95,7 +95,7 @@ func compareComments(src string, locs []*descriptorpb.SourceCodeInfo_Location) (
 // C03: source code info matches protoc - decided here for the comment attribution and for the
 // stability of the location list and spans under re-layout.
 func runC03(h *hx.H) {
-	h.Rule = "gate: the reference model of protoc's comment attribution (tokenizer NextWithComments + parser ConsumeEndOfDeclaration) is first run on the three files whose protoc output ships in the repository (internal/testdata/source_info.protoset, 1259 recorded locations) and must reproduce the recorded leading, trailing and detached comments of every declaration; inputs: every arrangement of <=2 (thorough <=3) trivia values from a 24-value set (blank runs, line and block comments in same-line, next-line, detached and stacked positions, tabs, CRLF) in the token slots of four skeletons (file header with options; message with fields, compact options, oneof, map, group, ranges; enum; service with rpc bodies and extend block), compiled with standard source info; oracle: (1) comments of every declaration equal the reference attribution and no other location carries comments; (2) the list of location paths equals that of the plain layout and every span equals the plain layout's span mapped through the token positions of the variant; non-trivial = layout with >=1 comment"
+	h.Rule = "gate: the reference model of protoc's comment attribution (tokenizer NextWithComments + parser ConsumeEndOfDeclaration) is first run on the three files whose protoc output ships in the repository (internal/testdata/source_info.protoset, 1259 recorded locations) and must reproduce the recorded leading, trailing and detached comments of every declaration; inputs: every arrangement of <=2 (thorough <=3) trivia values from a 24-value set (blank runs, line and block comments in same-line, next-line, detached and stacked positions, tabs, CRLF) in the token slots of five skeletons (a header-only file ending in option statements; file header with options; message with fields, compact options, oneof, map, group, ranges; enum; service with rpc bodies and extend block), compiled with standard source info; oracle: (1) comments of every declaration equal the reference attribution and no other location carries comments; (2) the list of location paths equals that of the plain layout and every span equals the plain layout's span mapped through the token positions of the variant; non-trivial = layout with >=1 comment"
 	h.Assumptions = append(h.Assumptions, "protoc itself is not available: comment attribution is decided against a reference model validated on protoc's recorded output for three files; location paths and span structure are pinned to the plain layout of each skeleton, whose agreement with protoc is what the repository's own TestSourceCodeInfo establishes for its three files; columns after multi-byte characters on the same line are outside the alphabet (protoc counts bytes, which cannot be confirmed offline)")
 	// ---- validation gate ----
 	root := os.Getenv("VERIF_REPO")
@@ -247,6 +247,11 @@ map < string , int32 > m = 5 ; optional group G = 6 { optional int32 g = 1 ; } r
 	strings.Fields(`syntax = "proto3" ; enum E { option allow_alias = true ; A = 0 ; B = 0 [ deprecated = true ] ; C = 1 ; reserved 5 to 7 ; } enum F { F0 = 0 ; }`),
 	strings.Fields(`syntax = "proto2" ; message M { extensions 100 to 199 ; } service S { option deprecated = true ; rpc R ( M ) returns ( M ) { option deprecated = true ; } rpc Q ( stream M ) returns ( stream M ) ; }
 extend M { optional int32 x = 100 ; optional M y = 101 ; }`),
+}
+
+func init() {
+	// a file that ends with `;`-terminated top-level statements
+	c03Skeletons = append(c03Skeletons, strings.Fields(`syntax = "proto3" ; package p . q ; import "google/protobuf/any.proto" ; option java_package = "x" ; option deprecated = true ;`))
 }
 
 var c03Trivia = []string{"", "\n", "\n\n", "\t", "  ", "\r\n", " // c\n", " // c\n\n", " /* c */ ", " /* c */\n", " /* c\n * d\n */\n", "\n// c\n", "\n// c\n// d\n", "\n// c\n\n", "\n\n// c\n", "\n\n// c\n\n", "\n\n// c\n\n// d\n",
